@@ -10,7 +10,11 @@
 //     spec.preemptibility independent of their priority, quotas are partly or fully
 //     used by running non-preemptible jobs, and the real capacity gates
 //     (Session.IsJobOverQueueCapacityFn, Session.IsNonPreemptibleJobOverQueueQuotaFn)
-//     are asked about every pending job when the session opens (alloc.go).
+//     are asked about every pending job when the session opens (alloc.go). A share
+//     of the worlds carries "ghosts" - ready pending pod groups whose queue is missing,
+//     orphaned or not a leaf - and is run on several fresh sessions; every run records
+//     which jobs the real InitializeWithJobs + PopNextJob hand out, which jobs the
+//     action attempts (in order) and which it places.
 //
 // Every case is printed as a Coq term of type `case` (coq/Run/C16.v).
 package c16
@@ -18,7 +22,10 @@ package c16
 import (
 	"fmt"
 	"strings"
+	"sync"
 	"time"
+
+	"go.uber.org/mock/gomock"
 
 	metav1 "k8s.io/apimachinery/pkg/apis/meta/v1"
 
@@ -642,44 +649,86 @@ func Run(dir string, seed uint64, n int, tier string) error {
 		obs := RunJO(queues, depth, ops)
 		emitJO(out, origin, queues, depth, ops, obs)
 	}
-	al := newAllocRunner()
+	// allocate runs: the worlds are drawn first, then run on fresh sessions by a pool of workers (a fake session
+	// waits 100 ms for its cache mock), then emitted in the order drawn
+	type alTask struct {
+		origin string
+		c      cluster
+		depth  int
+		res    alResult
+		err    error
+	}
+	var tasks []*alTask
+	addTask := func(origin string, c cluster, depth, rounds int) {
+		for k := 1; k <= rounds; k++ {
+			o := origin
+			if rounds > 1 {
+				o = fmt.Sprintf("%s round=%d/%d", origin, k, rounds)
+			}
+			tasks = append(tasks, &alTask{origin: o, c: c, depth: depth})
+		}
+	}
+	inf := scheduler_util.QueueCapacityInfinite
+	oneDept := []alDept{{ID: 1001, Deserved: -1, Limit: -1}}
+	leafQ := func(id int, deserved float64) alQueue {
+		return alQueue{ID: id, Dept: 1001, Deserved: deserved, Limit: -1, Weight: 1, DeservedCPU: -1, LimitCPU: -1}
+	}
+	oneGPU := []template{{Tasks: 1, GPUs: 1, CPUs: 500}}
 	// corpus: the depth-2 witness through the real allocate action (one queue, three
 	// identical one-GPU jobs of priority 75 / 60 / 50, room for all). The bounded
 	// queue must keep the two best whatever order InitializeWithJobs visits Go's map in.
-	wc := cluster{Nodes: []int{8}, Depts: []alDept{{ID: 1001, Deserved: -1, Limit: -1}},
-		Queues:    []alQueue{{ID: 1, Dept: 1001, Deserved: 8, Limit: -1, Weight: 1, DeservedCPU: -1, LimitCPU: -1}},
-		Templates: []template{{Tasks: 1, GPUs: 1, CPUs: 500}},
-		Jobs:      []alJob{{UID: 1, Queue: 1, Prio: 75}, {UID: 2, Queue: 1, Prio: 60}, {UID: 3, Queue: 1, Prio: 50}}}
-	for _, d := range []int{2, scheduler_util.QueueCapacityInfinite} {
-		res, err := al.run(wc, d)
-		if err != nil {
-			return fmt.Errorf("allocate corpus: %w", err)
-		}
-		emitAL(out, "corpus:witness", wc, d, res)
-	}
+	wc := cluster{Nodes: []int{8}, Depts: oneDept, Queues: []alQueue{leafQ(1, 8)}, Templates: oneGPU,
+		Jobs: []alJob{{UID: 1, Queue: 1, Prio: 75}, {UID: 2, Queue: 1, Prio: 60}, {UID: 3, Queue: 1, Prio: 50}}}
+	addTask("corpus:witness", wc, 2, 1)
+	addTask("corpus:witness", wc, inf, 1)
 	// corpus: an explicit spec.preemptibility wins over the priority. Queue 2 has a quota of one GPU,
 	// taken by a running non-preemptible job; two identical pending jobs of queue 2 say "preemptible",
 	// one with priority 125 (or 100, 99), one with priority 50; one GPU is left for them after queue 1's
 	// in-quota job. The preemptible jobs may go over quota, so the higher priority gets the GPU; and the
 	// mirror image: two jobs that say "non-preemptible" with priority 50 and 40 are both refused.
 	for _, hi := range []int32{125, 100, 99} {
-		pc := cluster{Nodes: []int{3}, Depts: []alDept{{ID: 1001, Deserved: -1, Limit: -1}},
-			Queues: []alQueue{{ID: 1, Dept: 1001, Deserved: 1, Limit: -1, Weight: 1, DeservedCPU: -1, LimitCPU: -1},
-				{ID: 2, Dept: 1001, Deserved: 1, Limit: -1, Weight: 1, DeservedCPU: -1, LimitCPU: -1}},
-			Templates: []template{{Tasks: 1, GPUs: 1, CPUs: 500}},
+		pc := cluster{Nodes: []int{3}, Depts: oneDept, Queues: []alQueue{leafQ(1, 1), leafQ(2, 1)}, Templates: oneGPU,
 			Jobs: []alJob{{UID: 1, Queue: 2, Prio: hi, Spec: specPreemptible}, {UID: 2, Queue: 2, Prio: 50, Spec: specPreemptible},
 				{UID: 3, Queue: 1, Prio: 50}, {UID: 4, Queue: 2, Prio: 50, Spec: specNonPreemptible, Age: 1},
 				{UID: 5, Queue: 2, Prio: 40, Spec: specNonPreemptible},
 				{UID: 501, Queue: 2, Prio: 100, Template: -1, Running: "node0", RunGPUs: 1}}}
-		res, err := al.run(pc, scheduler_util.QueueCapacityInfinite)
-		if err != nil {
-			return fmt.Errorf("allocate corpus: %w", err)
-		}
-		emitAL(out, fmt.Sprintf("corpus:explicit-preemptible-%d-vs-50", hi), pc, scheduler_util.QueueCapacityInfinite, res)
+		addTask(fmt.Sprintf("corpus:explicit-preemptible-%d-vs-50", hi), pc, inf, 1)
 	}
+	// corpus: ghosts. A node with ONE GPU, leaf queue 1 with two identical one-GPU workloads - `low` (priority 50,
+	// created first) and `high` (priority 60, created last), resp. `old` and `young` at priority 50 - and a ready
+	// pending pod group `ghost` whose queue is not in the snapshot (deleted while the workload was pending). The
+	// ghost must simply be skipped, wherever Go's map iteration meets it: run on 24 fresh sessions each.
+	ghost := func(uid, kind, queue int, prio int32, age int64, ns string) alJob {
+		return alJob{UID: uid, Queue: queue, Ghost: kind, Prio: prio, Age: age, NS: ns}
+	}
+	readme := func(a, b alJob, ghosts ...alJob) cluster {
+		return cluster{Nodes: []int{1}, Depts: oneDept, Queues: []alQueue{leafQ(1, 1)}, Templates: oneGPU,
+			Jobs: append([]alJob{a, b}, ghosts...)}
+	}
+	low, high := alJob{UID: 1, Queue: 1, Prio: 50, Age: 0}, alJob{UID: 2, Queue: 1, Prio: 60, Age: 1500}
+	old, young := alJob{UID: 1, Queue: 1, Prio: 50, Age: 0}, alJob{UID: 2, Queue: 1, Prio: 50, Age: 1500}
+	addTask("corpus:readme-priority-no-ghost", readme(low, high), inf, 4)
+	addTask("corpus:readme-priority-with-ghost", readme(low, high, ghost(3, ghostMissing, 9001, 50, 1200, "")), inf, 24)
+	addTask("corpus:readme-fifo-with-ghost", readme(young, old, ghost(3, ghostMissing, 9001, 50, 1200, "")), inf, 24)
+	// the ghost in another namespace, with the highest priority and the oldest; two ghosts; ghosts of every kind
+	addTask("corpus:ghost-other-namespace-top-priority", readme(low, high, ghost(3, ghostMissing, 9001, 125, -60, "other-ns")), inf, 8)
+	addTask("corpus:two-ghosts-fifo", readme(young, old, ghost(3, ghostMissing, 9001, 50, 100, "team-a"),
+		ghost(4, ghostMissing, 9002, 40, 2000, "")), inf, 8)
+	addTask("corpus:ghost-of-non-leaf-queue", readme(low, high, ghost(3, ghostNonLeaf, 1001, 75, 10, "")), inf, 8)
+	oc := readme(low, high, ghost(3, ghostOrphan, 801, 75, 10, "team-a"))
+	oc.Orphans = []alQueue{{ID: 801, Dept: 1801, Deserved: 0, Limit: -1, Weight: 1, DeservedCPU: -1, LimitCPU: -1}}
+	addTask("corpus:ghost-of-orphan-queue", oc, inf, 8)
+	// two competing leaf queues, three comparable jobs each, room for three, three ghosts; unlimited and depth 2
+	mc := cluster{Nodes: []int{2, 1}, Depts: oneDept, Queues: []alQueue{leafQ(1, 1), leafQ(2, 1)}, Templates: oneGPU,
+		Jobs: []alJob{{UID: 1, Queue: 1, Prio: 50, Age: 5}, {UID: 2, Queue: 1, Prio: 50, Age: 2}, {UID: 3, Queue: 1, Prio: 75, Age: 7},
+			{UID: 4, Queue: 2, Prio: 40, Age: 1}, {UID: 5, Queue: 2, Prio: 60, Age: 6}, {UID: 6, Queue: 2, Prio: 60, Age: 3},
+			ghost(7, ghostMissing, 9001, 100, 0, "other-ns"), ghost(8, ghostMissing, 9001, 50, 4, ""), ghost(9, ghostNonLeaf, 1001, 60, 2, "team-a")}}
+	addTask("corpus:two-queues-three-ghosts", mc, inf, 8)
+	addTask("corpus:two-queues-three-ghosts", mc, 2, 8)
+
 	for i := 0; i < nAL; i++ {
 		r := root.Fork(uint64(2000000 + i))
-		depth := scheduler_util.QueueCapacityInfinite
+		depth := inf
 		if i%5 == 4 {
 			depth = r.Range(1, 4)
 		}
@@ -689,16 +738,50 @@ func Run(dir string, seed uint64, n int, tier string) error {
 			pool = allocWidePrios
 		}
 		c := genCluster(r, pool)
-		res, err := al.run(c, depth)
-		if err != nil {
-			return fmt.Errorf("allocate case %d: %w", i, err)
+		rounds := 1
+		// a third of the generated worlds carry 1-3 ghosts and are run on 2-3 fresh sessions
+		// (own stream: the worlds themselves are the ones drawn without it)
+		if g := root.Fork(uint64(3000000 + i)); i%3 == 1 {
+			addGhosts(g, &c, pool)
+			rounds = g.Range(2, 3)
 		}
-		emitAL(out, fmt.Sprintf("gen#%d", i), c, depth, res)
+		addTask(fmt.Sprintf("gen#%d", i), c, depth, rounds)
+	}
+	al := newAllocRunner() // initialises the scheduler's registries once; its controller is not used by the workers
+	const workers = 12
+	next := make(chan *alTask)
+	var wg sync.WaitGroup
+	reporters := make([]*reporter, workers)
+	for w := 0; w < workers; w++ {
+		rep := &reporter{}
+		reporters[w] = rep
+		runner := &allocRunner{reporter: rep, ctrl: gomock.NewController(rep)}
+		wg.Add(1)
+		go func() {
+			defer wg.Done()
+			for t := range next {
+				t.res, t.err = runner.run(t.c, t.depth)
+			}
+		}()
+	}
+	for _, t := range tasks {
+		next <- t
+	}
+	close(next)
+	wg.Wait()
+	for _, rep := range reporters {
+		al.reporter.failed += rep.failed
+	}
+	for _, t := range tasks {
+		if t.err != nil {
+			return fmt.Errorf("allocate run %s: %w", t.origin, t.err)
+		}
+		emitAL(out, t.origin, t.c, t.depth, t.res)
 	}
 	if al.reporter.failed > 0 {
 		out.Stats["gomock_reports"] = al.reporter.failed
 	}
-	out.Stats["rule"] = "one splitmix64 stream; after a fixed corpus (ties, elastic states, depth 0/1/2 witnesses; allocate: the depth-2 witness, and three clusters where two identical pending jobs that say preemptible, priority 125/100/99 and 50, compete for the last GPU of a queue whose quota a running non-preemptible job has taken): 40% PriorityQueue programs (push/pop/Fix(i)/re-prioritise-top+Fix(0), 4-36 ops then drained), 45% JobsOrderByQueues programs (2-6 leaf queues on 1-3 levels, 3-24 initial pushes, then pops / pushes / re-pushes with progress, then drained), 15% real allocate runs: 1-4 nodes of 2-8 GPUs, 1-2 departments (one in three with a GPU quota, one in four with a limit), 2-6 leaf queues with GPU quotas 0..half the cluster, one in three with a GPU limit at or just above its usage, some with cpu quotas / limits; running jobs first: in two of three queues non-preemptible running jobs use the queue's GPU quota fully (2 in 5), minus one, plus one or partly, plus preemptible running jobs over quota, at least a third of the cluster left free; 4-28 pending whole-GPU gang jobs from 2-3 templates, half of them in one hot queue and most of those of one template and one preemptibility; every job (running or pending) has spec.preemptibility preemptible / non-preemptible / unset, drawn independently of its priority (unset only when the priority alone gives the wanted preemptibility), so explicit-preemptible jobs at or above 100 and explicit-non-preemptible jobs below 100 are as frequent as the derived ones; priorities from {40,50,60,75,99,100,125} or, one in four, from the whole int32 range of a PriorityClass value (-2^31 .. 2^31-1, system classes included) plus 99 and 100; PQ/JO programs draw from {40,50,60,75,100,125} or the int32 range; every 4th queue program and every 5th allocate run uses a finite depth (label prefix finite-depth; checked like all others); comparable = same leaf queue, template, request and supposed preemptibility (explicit value, else derived from the priority as CalculatePreemptibility does; never PodGroupInfo.IsPreemptibleJob); non-trivial = PQ: >=3 pushes and >=2 pops; JO: jobs in >=2 queues and >=4 pushes; allocate: >=1 comparable pair with one job placed and one not"
+	out.Stats["rule"] = "one splitmix64 stream; after a fixed corpus (ties, elastic states, depth 0/1/2 witnesses; allocate: the depth-2 witness, and three clusters where two identical pending jobs that say preemptible, priority 125/100/99 and 50, compete for the last GPU of a queue whose quota a running non-preemptible job has taken): 40% PriorityQueue programs (push/pop/Fix(i)/re-prioritise-top+Fix(0), 4-36 ops then drained), 45% JobsOrderByQueues programs (2-6 leaf queues on 1-3 levels, 3-24 initial pushes, then pops / pushes / re-pushes with progress, then drained), 15% real allocate runs: 1-4 nodes of 2-8 GPUs, 1-2 departments (one in three with a GPU quota, one in four with a limit), 2-6 leaf queues with GPU quotas 0..half the cluster, one in three with a GPU limit at or just above its usage, some with cpu quotas / limits; running jobs first: in two of three queues non-preemptible running jobs use the queue's GPU quota fully (2 in 5), minus one, plus one or partly, plus preemptible running jobs over quota, at least a third of the cluster left free; 4-28 pending whole-GPU gang jobs from 2-3 templates, half of them in one hot queue and most of those of one template and one preemptibility; every job (running or pending) has spec.preemptibility preemptible / non-preemptible / unset, drawn independently of its priority (unset only when the priority alone gives the wanted preemptibility), so explicit-preemptible jobs at or above 100 and explicit-non-preemptible jobs below 100 are as frequent as the derived ones; priorities from {40,50,60,75,99,100,125} or, one in four, from the whole int32 range of a PriorityClass value (-2^31 .. 2^31-1, system classes included) plus 99 and 100; PQ/JO programs draw from {40,50,60,75,100,125} or the int32 range; every 4th queue program and every 5th allocate run uses a finite depth (label prefix finite-depth; checked like all others); a third of the generated allocate worlds carry 1-3 ghosts (ready pending pod groups, any namespace / priority / age / template: 3 in 5 of a queue that is not in the snapshot, 1 in 5 of a queue whose department is taken out of the session's queue map after the plugins opened, 1 in 5 of a department) and are run on 2-3 fresh sessions each (one case per round); corpus ghost worlds: the README world of seeded/C16-4 (one 1-GPU node, leaf queue with low/high resp. young/old, one ghost of a missing queue) 24 rounds per variant plus a 4-round control, and six more worlds (ghost in another namespace with top priority, two ghosts, ghost of a department, ghost of an orphan queue, two competing queues with three ghosts at unlimited depth and depth 2) 8 rounds each; every allocate run records what the real InitializeWithJobs + PopNextJob hand out and which jobs the action attempts, in order; comparable = same leaf queue, template, request and supposed preemptibility (explicit value, else derived from the priority as CalculatePreemptibility does; never PodGroupInfo.IsPreemptibleJob); non-trivial = PQ: >=3 pushes and >=2 pops; JO: jobs in >=2 queues and >=4 pushes; allocate: >=1 comparable pair with one job placed and one not"
 	return out.Flush()
 }
 
